@@ -87,6 +87,22 @@ def values_for(tier, writer):
     return list(strings(alphabet(writer), 3))
 
 
+def sweep_values(writer):
+    """Breadth sweep (mc/sweeps.py): every token alone and embedded, and long values (line-length thresholds of a writer)."""
+    from .. import sweeps
+
+    toks = list(sweeps.TOKENS)
+    if writer in ("shacl", "tsv"):   # quantifier: printable characters excluding double quote, angle brackets and control characters
+        toks = [t for t in toks if t.isprintable() and not any(c in t for c in '"<>')]
+    out = []
+    for t in toks:
+        out += [t, "a" + t + "b", t + t]
+    for unit in ("ab-cd ef", "x", "http://e.org/a-b/", "é "):
+        for L in (79, 80, 81, 99, 100, 101, 119, 120, 121, 130, 255, 256, 257):
+            out.append((unit * (L // len(unit) + 1))[:L])
+    return list(dict.fromkeys(out))
+
+
 def units(tier, seed):
     us = []
     for writer in ("epm", "jsonld", "shacl", "tsv"):
@@ -94,6 +110,7 @@ def units(tier, seed):
             if not applicable(writer, field, "a"):
                 continue
             vals = [v for v in values_for(tier, writer) if applicable(writer, field, v)]
+            vals += [v for v in sweep_values(writer) if applicable(writer, field, v) and v not in vals]
             nch = (24 if writer == "shacl" else 6) * (1 if tier == "quick" else 6)
             for ch in chunks(vals, nch):
                 us.append({"writer": writer, "field": field, "values": ch})
